@@ -817,6 +817,8 @@ class IkeSa(object):
             my_proposal = (ipsec_conf.proposal.copy_without_dh_transforms()
                            if request.exchange_type == Message.Exchange.IKE_AUTH else ipsec_conf.proposal)
             chosen_child_proposal = self._select_best_sa_proposal(my_proposal, request_payload_sa)
+            if len(chosen_child_proposal.spi) != 4:
+                raise NoProposalChosen('Peer did not provide a valid (4 bytes long) SPI for the CHILD_SA')
 
             keyseed = request_payload_nonce.nonce + response_payload_nonce.nonce
             # if KE exchange is required
@@ -971,6 +973,8 @@ class IkeSa(object):
         intersection = my_proposal.intersection(chosen_child_proposal)
         if intersection is None or intersection != chosen_child_proposal:
             raise NoProposalChosen('Responder did not choose a valid proposal')
+        if len(chosen_child_proposal.spi) != 4:
+            raise NoProposalChosen('Responder did not provide a valid (4 bytes long) SPI for the CHILD_SA')
 
         # generate CHILD key material
         keyseed = request_payload_nonce.nonce + response_payload_nonce.nonce
